@@ -547,6 +547,9 @@ class ktensor:
                 "components in ktensor."
             )
 
+        if weight_factor is not None and weight_factor not in range(self.ndims):
+            assert False, "weight_factor must be a mode of the ktensor"
+
         # TODO there is a relationship here between normalize and arrange that repeats
         #  tasks. Can this be made to be more efficient? ensure that factor matrices
         #  are normalized
@@ -1254,6 +1257,8 @@ class ktensor:
         [[24. 24.]
          [24. 24.]]
         """
+        if n not in range(self.ndims):
+            assert False, "n must be a mode of the ktensor"
         U = get_mttkrp_factors(U, n, self.ndims)
 
         # Number of columns in input matrices
@@ -1362,6 +1367,13 @@ class ktensor:
          [0.5 0.5]
          [0.5 0.5]]
         """
+        if (
+            weight_factor is not None
+            and weight_factor != "all"
+            and weight_factor not in range(self.ndims)
+        ):
+            assert False, "weight_factor must be 'all' or a mode of the ktensor"
+
         # when mode is specified, just normalize self.factor_matrices[mode]
         if mode is not None:
             if mode in range(self.ndims):
@@ -1458,6 +1470,8 @@ class ktensor:
         [[ 0.70710678...  0.70710678...]
          [ 0.70710678... -0.70710678...]]
         """
+        if n not in range(self.ndims):
+            assert False, "n must be a mode of the ktensor"
         M = self.weights[:, None] @ self.weights[:, None].T
         for i in range(self.ndims):
             if i != n:
@@ -1585,6 +1599,8 @@ class ktensor:
         [[5. 6.]
          [7. 8.]]
         """
+        if mode not in range(self.ndims):
+            assert False, "mode must be a mode of the ktensor"
         for r in range(self.ncomponents):
             self.factor_matrices[mode][:, [r]] = (
                 self.factor_matrices[mode][:, [r]] * self.weights[r]
